@@ -101,7 +101,9 @@ def setup(fast_poll=True):
     # for the 5 ms GIL switch interval; only timing changes
     sys.setswitchinterval(0.0005)
     import logging
-    logging.getLogger('asyncio').setLevel(logging.CRITICAL)      # 'exception was never retrieved' noise of cancelled leftovers
+    logging.getLogger('asyncio').setLevel(logging.CRITICAL)
+    import warnings
+    warnings.filterwarnings('ignore', category=RuntimeWarning)      # 'coroutine ... was never awaited' of abandoned workers      # 'exception was never retrieved' noise of cancelled leftovers
     _setup_done = True
 
 
